@@ -92,7 +92,7 @@ CLAIMED = {
     engine="driver-ai"),
  "C11": dict(
     category="other",
-    text="A public key is the struct (rho, tr, t1-precompute). For get_public_key on every deserialisable and every generated private key, all three sets: D1 the derived rho is an unmodified copy of the private key's rho (exact-copy provenance tag through the abstract run); D2 the derived tr is an unmodified copy of the private key's tr, or is recomputed as H(.,64) over exactly PK_LEN bytes = rho followed by k 320-byte blocks, read once at offset 0 - a zeroed, partially rewritten or partially hashed tr is reported; D3 the matrix used is ExpandA(private key's rho) with FIPS index bytes/order; D4 Power2Round applied exactly once to a fully reduced t and exact on Z_q (C15 engine); D5 the derived key's precompute lies in the abstract class proved for generated/deserialised keys and verify / hash_verify / _internal_verify composed with a derived key violate no obligation. Not decided: equality of the recomputed t1 with the generated one (ring arithmetic), hence not full behavioural equality.",
+    text="A public key is the struct (rho, tr, t1-precompute). For get_public_key on every deserialisable and every generated private key, all three sets: D1 the derived rho is an unmodified copy of the private key's rho (exact-copy provenance tag through the abstract run); D2 the derived tr is an unmodified copy of the private key's tr, or is recomputed as H(.,64) over exactly PK_LEN bytes = rho followed by k 320-byte blocks, read once at offset 0 - a zeroed, partially rewritten or partially hashed tr is reported; D3 the matrix used is ExpandA(private key's rho) with FIPS index bytes/order; D4 Power2Round applied exactly once to a fully reduced t and exact on Z_q (C15 engine); D5 the derived key's precompute lies in the abstract class proved for generated/deserialised keys and verify / hash_verify / _internal_verify composed with a derived key violate no obligation. D6 the verification precompute is the same linear function of t1 modulo q in key generation, deserialisation and derivation (symbolic runs, all 256*256*k coefficients compared): keys with equal (rho, tr, t1) decide every input identically however they were built. Not decided: equality of the recomputed t1 with the generated one (ring arithmetic), hence not full behavioural equality.",
     design_ref="DESIGN.md §4 C11",
     note="Level 'other'. The suite's own byte comparison of derived vs generated keys covers t1 on its samples; tr (ignored by serialisation) is what this check decides exactly. Trusted: abstract interpreter soundness, hash model.",
     technique="abstract interpretation over monomorphic MIR with exact-copy provenance tags on byte arrays, hash absorb-list probes, obligation discharge under key-producer composition",
@@ -106,21 +106,21 @@ CLAIMED = {
     engine="driver-ai"),
  "C05": dict(
     category="other",
-    text="Structural half of strong binding: every byte of the signature, the serialised public key, the message and the context is shown to reach a rejecting check or a hash input. B1 signature: decoder ranges tile the signature; c-tilde is compared in full and SampleInBall absorbs all of it; every Alg. 21 malformation class (counter above omega, counter below the running index, non-increasing positions, any non-zero unused byte incl. the last, at every polynomial) is definitely rejected directly and through verify/hash_verify/_internal_verify embedded in arbitrary signatures; out-of-bound z rejected. B2 public key: decode ranges tile the key, rho is the exact copy of bytes 0..32, tr = H(all PK_LEN bytes,64) (provenance tag of the absorbed item is the whole input), verification absorbs all 64 bytes of that tr first into mu and every ExpandA instance absorbs all of that rho. B3 message/context: whole message (or FIPS OID + digest), whole context, exact length byte and mode byte absorbed into mu for every context length (C06 rules, verify side). Not decided: bit-level injectivity of the z fields, and the hash argument (a changed input changes the output) which the property itself names as its premise.",
+    text="Structural half of strong binding: every byte of the signature, the serialised public key, the message and the context is shown to reach a rejecting check or a hash input. B1 signature: decoder ranges tile the signature; c-tilde is compared in full and SampleInBall absorbs all of it; every Alg. 21 malformation class (counter above omega, counter below the running index, non-increasing positions, any non-zero unused byte incl. the last, at every polynomial) is definitely rejected directly and through verify/hash_verify/_internal_verify embedded in arbitrary signatures; out-of-bound z rejected. B2 public key: decode ranges tile the key, rho is the exact copy of bytes 0..32, tr = H(all PK_LEN bytes,64) (provenance tag of the absorbed item is the whole input), verification absorbs all 64 bytes of that tr first into mu and every ExpandA instance absorbs all of that rho. B3 message/context: whole message (or FIPS OID + digest), whole context, exact length byte and mode byte absorbed into mu for every context length (C06 rules, verify side). Every bit of c-tilde, of every z field and of the public key changes the decoded value (C08 R4, bit-exact re-encoding). Not decided: the hash argument (a changed input changes the output), which the property itself names as its premise.",
     design_ref="DESIGN.md §4 C05",
     note="Level 'other'. The malleability classes the property names (hint counters, zero padding) are decided for all members of each class; the class family covers the taxonomy, not all byte strings. Quick: hint/layout/key rules on all three sets, verify-side rules on ML-DSA-44.",
     technique="abstract interpretation on abstract input classes (definite rejection) + slice-range tiling + whole-input absorb rules with exact-copy provenance",
     engine="driver-ai"),
  "C09": dict(
     category="other",
-    text="For EVERY public-key byte string and EVERY accepted private-key byte string, all three sets: P1 PublicKey::try_from_bytes is total and no panic/overflow/self-check obligation is violated along try_from_bytes -> into_bytes (the skEncode range self-checks C13 assumes are discharged here); P2 rho (and K, tr) are exact copies of their input byte ranges after deserialisation and are copied unmodified into the same ranges by into_bytes (exact-copy provenance tags / segments); P3 the ring arithmetic: one symbolic abstract run of try_from_bytes followed by into_bytes in which every decoded coefficient is a named symbol and linear forms modulo q are carried through NTT, the Montgomery conversions, the 2^d scaling, inverse NTT, the centring branch and the final shift - at the call of pkEncode/skEncode every one of the 256k (resp. 256(l+2k)) coefficients is EXACTLY its own symbol, in order, so t1' = t1 on [0,1023]^(256k) and (s1,s2,t0)' = (s1,s2,t0) on all accepted values including every extremal pattern; P4 encoder/decoder byte ranges identical, tiling, FIPS layout, and each field decoder accepts exactly the emitted coefficient range. Not decided: BitPack(BitUnpack(v)) = v bit for bit, and behavioural equality of a re-deserialised generated key beyond P2-P4.",
+    text="For EVERY public-key byte string and EVERY accepted private-key byte string, all three sets: P1 PublicKey::try_from_bytes is total and no panic/overflow/self-check obligation is violated along try_from_bytes -> into_bytes (the skEncode range self-checks C13 assumes are discharged here); P2 rho (and K, tr) are exact copies of their input byte ranges after deserialisation and are copied unmodified into the same ranges by into_bytes (exact-copy provenance tags / segments); P3 the ring arithmetic: one symbolic abstract run of try_from_bytes followed by into_bytes in which every decoded coefficient is a named symbol and linear forms modulo q are carried through NTT, the Montgomery conversions, the 2^d scaling, inverse NTT, the centring branch and the final shift - at the call of pkEncode/skEncode every one of the 256k (resp. 256(l+2k)) coefficients is EXACTLY its own symbol, in order, so t1' = t1 on [0,1023]^(256k) and (s1,s2,t0)' = (s1,s2,t0) on all accepted values including every extremal pattern; P4 the byte codecs: encoder/decoder byte ranges identical, tiling, FIPS layout, each field decoder accepts exactly the emitted coefficient range, and pkEncode(pkDecode(b)) = b, skEncode(skDecode(b)) = b BIT FOR BIT for every accepted b (every input bit a boolean symbol; bit fields followed as exact linear forms with a low/high split rule for masks, shifts and byte extraction). P3 and P4 compose to into_bytes(try_from_bytes(b)) = b for every accepted b - the first sentence of the property is proved. The converse (a re-deserialised generated key behaves identically) is supported by P2-P4, C04 K9 and C11 D6 (equal precompute maps modulo q) but representative-level struct equality is not shown, hence level 'other'.",
     design_ref="DESIGN.md §4 C09, §2.5",
-    note="Level 'other' only because the bit-level inverse of the field codecs is outside the domains; P3 is a proof over all keys (symbols, not samples). Trusted: abstract interpreter soundness incl. the linear-congruence domain and exactification by range.",
+    note="The byte round trip is a proof over all keys (symbols, not samples); level 'other' because of the behavioural converse. Trusted: abstract interpreter soundness incl. the linear-congruence domain and exactification by range.",
     technique="abstract interpretation over monomorphic MIR with named symbols and linear forms modulo q (LIN tier: region-result lifting through atom definitions, exactification), root chaining, exact-copy provenance",
     engine="driver-ai"),
  "C08": dict(
     category="other",
-    text="Clauses decided statically. R1: HintBitUnpack run on 78 (x3 sets) abstract input classes generated from (k, omega) - count above omega, count below the running index (every polynomial, two prefix shapes and the boundary member), non-increasing / repeated positions, non-zero unused bytes, each at first/middle/last position - every member of an error class is definitely rejected, every member of a canonical class definitely accepted. R2: encoder and decoder of sig/pk/sk use identical byte ranges that tile [0, LEN) and equal the FIPS 204 layout. R3: BitUnpack accepts exactly [-a, b] for every (a, b) in use (total when a+b+1 is a power of two). Not decided: re-encode identity for every accepted byte string and the bit-level bijection.",
+    text="R1: HintBitUnpack run on 78 (x3 sets) abstract input classes generated from (k, omega) - count above omega, count below the running index (every polynomial, two prefix shapes and the boundary member), non-increasing / repeated positions, non-zero unused bytes, each at first/middle/last position - every member of an error class is definitely rejected, every member of a canonical class definitely accepted. R2: encoder and decoder of sig/pk/sk use identical byte ranges that tile [0, LEN) and equal the FIPS 204 layout. R3: BitUnpack accepts exactly [-a, b] for every (a, b) in use (total when a+b+1 is a power of two). R4: bit-exact re-encoding - with every input bit a boolean symbol, skEncode(skDecode(b)) = b and pkEncode(pkDecode(b)) = b for every accepted b, and sigEncode(sigDecode(s)) reproduces c-tilde and all z fields of every accepted s bit for bit; hence decoding is injective there (no second encoding of the same key / response vector). Not decided: re-encode identity of the hint section for every accepted string (symbolic indices) - that part rests on the class family of R1.",
     design_ref="DESIGN.md §4 C08",
     note="The class family is a cover of the malformation taxonomy, not a partition of all byte strings (exhaustive: false in evidence). Trusted: abstract interpreter soundness; class verdicts transcribed from Alg. 21.",
     technique="abstract interpretation on abstract input classes (definite accept/reject) + slice-range layout probes",
